@@ -41,7 +41,10 @@ MANIFEST = {
             'reverse are then checked against independent references). A concurrency stream (m=3, t=1) launches 3-6 divmod/floordiv/mod/gcd/gcdext/mul operations with '
             'operands of different padded lengths without awaiting, then issues 30 short awaited multiplications while they run, '
             'under RandomOrder/ReverseLinks/Hold delivery schedules, and compares all results with gfpx. Hangs are decided by '
-            'simulator rounds (not seconds); incomplete cases are re-run alone in a fresh simulator. Message-size traces are compared for two runs with equal '
+            'simulator rounds (not seconds); incomplete cases are re-run alone in a fresh simulator. Further m=3 configurations: no PRSS '
+            'over the tiny prime fields GF(5), GF(7), GF(11) with many coefficient inversions (monic, gcd, gcdext, invert, division by '
+            'non-monic divisors: reciprocal() retries occur with probability 1/p per call), and option --mix32-64bit over GF(31), '
+            'GF(101) where every opened coefficient must be a reduced field element. Message-size traces are compared for two runs with equal '
             'padded lengths and different values on one batch (p=101, m=3, operations without retry loops). Trusted: Coq kernel, '
             'simulator, gfpx as the specification.',
     'technique': 'Coq proof on padded coefficient lists + simulator-run differential check against gfpx and the vm_compute model',
@@ -768,6 +771,8 @@ def run(ctx):
                 if expected_len(p, op, la_, lb_, k) == 0 or (op == 'inout' and not a) or (op in ('divmod', 'rdivmod_pub') and (la_ == 0 or lb_ == 1)) \
                         or (op == 'if_swap' and (la_ == 0 or lb_ == 0)) or (op == 'gcdext' and max(la_, lb_) == 0):
                     cls = 'mix32-empty-output'     # F-C38-11: opening an empty array with --mix32-64bit (m > 1) raises IndexError
+                elif no_prss and la_ == 1 and (op in DIV_OPS or (op == 'powmod' and k != 0)):
+                    cls = 'mix32-empty-output'     # F-C38-11 too: _div draws _np_randoms(.., m-1 = 0): an empty array is SHARED (random_split reads s[0])
             # keep the number of runs that end in a hang / escaped exception (each costs a simulator restart) small:
             # one representative per (known failing class, operation) and per small-field operation, on m=1 only
             costly = (cls in ('zero-polynomial', 'empty-operands', 'gf2-division', 'mix32-empty-output')) or \
